@@ -34,7 +34,7 @@ def shapes(rng, N):
     w = max(1, min(N, rng.choice([1, 2, 5, 6, N])))
     return ["kappa", "delta", "dmax", "dmaxperm", "sigma", "omega", "omegaseq", "region", "countPos", "countNeg", "countNeut",
             "fplus", "fminus", "fcr", "ncpr", "mnc", "fer", "disorder", "aafrac", "kd", "uversky", "ww", "ppii hilser", "mw", "scd",
-            "seq", "len", "sty", "kappaX s000045,s000044 s00004b,s000052", "kappaX s000050,s000045,s000044,s00004b,s000052 -",
+            "seq", "len", "sty", "strof", "kappaX s000045,s000044 s00004b,s000052", "kappaX s000050,s000045,s000044,s00004b,s000052 -",
             "kappaX s000045,s000044,s00004b,s000052 -", "kappaX s000041,s000047 s000053,s000054,s000056",
             "kappaX s000041,s000047,s000053 s000054,s000056", "kappaX s00004b,s000052 s000045,s000044",
             "linNCPR %d" % w, "linFCR %d" % w, "linSigma %d" % w, "linHydro %d" % w, "linComp %d -" % w,
